@@ -403,7 +403,7 @@ let run_case (line : string) : string =
       let v = read_value t in
       (match de cast_f32 (model_ty n) v with
        | SOk d -> "ok " ^ show_data true n d
-       | SErr SData -> "err data")
+       | SErr -> "err data")
   | "fromf64" ->
       let f = f64_of_bits (n_of_hex (next t)) in
       (match num_from_f64 f with None -> "-" | Some n -> string_of_value (Number n))
